@@ -73,6 +73,9 @@ class Model(object):
         # Maps cmeta ids to Variable objects
         self._cmeta_id_to_variable = {}
 
+        # Number of variables ever added: gives each variable a distinct, increasing ``order_added``
+        self._variables_added = 0
+
         # Cached nx.DiGraph of this model's equations, with number dummies or with sympy.Number objects
         self._graph = None
         self._graph_with_sympy_numbers = None
@@ -590,9 +593,10 @@ class Model(object):
             initial_value=initial_value,
             public_interface=public_interface,
             private_interface=private_interface,
-            order_added=len(self._name_to_variable),
+            order_added=self._variables_added,
             cmeta_id=cmeta_id,
         )
+        self._variables_added += 1
 
         # Add cmeta id to var mapping
         if cmeta_id is not None:
